@@ -52,6 +52,8 @@ extern "C" {
   void sym_allow(const void *) {}
   unsigned sym_writes(void) { return 0; }
   void sym_event(const char *, unsigned long) {}
+  void sym_run_ctors(const char *) {}
+  bool sym_decide(bool b) { return b; }
 }
 int main(int argc, char **argv)
 {
